@@ -162,11 +162,14 @@ var opCases = []opCase{
 
 // ItemSubst describes how the server falsifies one response item.
 type ItemSubst struct {
-	Op        string `json:"op,omitempty"`       // "" same | other | unknown | absent
-	OtherOp   int    `json:"other_op,omitempty"` // index into opCases
-	Status    int    `json:"status,omitempty"`   // 0 success 1 failed 2 pending 3 undone 4 unnamed
-	Reason    int    `json:"reason,omitempty"`   // 0 none, 1.. named, 99 unnamed
-	Message   bool   `json:"message,omitempty"`
+	Op      string `json:"op,omitempty"`       // "" same | other | unknown | absent
+	OtherOp int    `json:"other_op,omitempty"` // index into opCases
+	Status  int    `json:"status,omitempty"`   // 0 success 1 failed 2 pending 3 undone 4 unnamed
+	Reason  int    `json:"reason,omitempty"`   // 0 none, 1.. named, 99 unnamed
+	Message bool   `json:"message,omitempty"`
+	// MsgStyle: what the Result Message looks like: 0 plain | 1 with per-cent signs and things that look like format
+	// verbs | 2 quotes, backslashes, a line break, non-ASCII | 3 two thousand characters
+	MsgStyle  int    `json:"msg_style,omitempty"`
 	Payload   string `json:"payload,omitempty"` // "" right | other | opaque | absent
 	PayloadOp int    `json:"payload_op,omitempty"`
 }
@@ -268,6 +271,9 @@ func genItemSubst(g *simrt.Tape) ItemSubst {
 		it.Reason = 99
 	}
 	it.Message = g.Draw(2) == 1
+	if it.Message && g.Draw(2) == 0 {
+		it.MsgStyle = 1 + g.Draw(3)
+	}
 	switch g.Draw(6) {
 	case 1:
 		it.Payload = "other"
@@ -363,6 +369,9 @@ func c12Floor(tier string) []*C12Sc {
 		{Items: []ItemSubst{{Status: 3, Reason: 5, Payload: "absent"}}},
 		{Items: []ItemSubst{{Status: 4, Reason: 2, Message: true, Payload: "absent"}}},
 		{Items: []ItemSubst{{Status: 1, Reason: 3, Message: true}}}, // failed but with a payload
+		{Items: []ItemSubst{{Status: 1, Reason: 1, Message: true, MsgStyle: 1, Payload: "absent"}}},
+		{Items: []ItemSubst{{Status: 1, Reason: 5, Message: true, MsgStyle: 2, Payload: "absent"}}},
+		{Items: []ItemSubst{{Status: 3, Reason: 2, Message: true, MsgStyle: 3, Payload: "absent"}}},
 		{HeaderDelta: 1}, {HeaderDelta: -1}, {ItemsDelta: 1}, {ItemsDelta: -9}, {ItemsDelta: 1, HeaderDelta: 1}, {ItemsDelta: -9, HeaderDelta: 1}, {ItemsDelta: -9, HeaderDelta: 2},
 		{Decor: 1}, {Decor: 2}, {Decor: 4}, {Decor: 8}, {Decor: 15},
 		{Decor: 3, Items: []ItemSubst{{Status: 1, Reason: 4, Message: true, Payload: "absent"}}},
@@ -553,6 +562,14 @@ func buildResponseWith(req *kmip.RequestMessage, sb *RespSubst, sent *[]c12Sent,
 		ri.ResultReason = reasonVal(it.Reason)
 		if it.Message {
 			ri.ResultMessage = fmt.Sprintf("srv-msg-%d", i)
+			switch it.MsgStyle {
+			case 1:
+				ri.ResultMessage += ": 100% of the quota is in use (%d objects, %s, %v, 50%)"
+			case 2:
+				ri.ResultMessage += ": \"quoted\" back\\slash\nsecond line \u00fcn\u00ef\u4e2d"
+			case 3:
+				ri.ResultMessage += ": " + strings.Repeat("long message ", 160)
+			}
 		}
 		switch it.Payload {
 		case "":
